@@ -40,6 +40,7 @@ LEVEL_NOTE = ('Lean kernel; gen_c20 translator; hand-written model Model/C20Brid
               'the K/R streams but not proved.')
 TECHNIQUE = 'Lean 4 theorems over regenerated tables + C12 parity algebra; model-vs-code correspondence at both RDKit boundaries; real round trips judged by canonical SMILES of both toolkits'
 HAS_DRIVER = True
+FINDINGS_MODULE = 'ChythonModel.Findings.C20'
 RULE = ('corpus sample + handmade + stereo templates (all label combinations for <= 3 stereo elements, explicit/implicit H, '
         'Kekule and aromatic form) x configuration-preserving renumbering (new numbers, new atom and bond insertion order) x '
         'keep_mapping on/off; RDKit side: RenumberAtoms and random-order SMILES re-reads; a case is non-trivial when the '
@@ -357,7 +358,7 @@ def judge_A(mol, keep=True):
     if len(back._atoms) != len(nums):
         return [('atom-count', f'{len(nums)} -> {len(back._atoms)}')]
     pos = dict(zip(nums, back._atoms))       # position map: i-th atom <-> i-th atom
-    for n, a in mol._atoms.items():
+    for i, (n, a) in enumerate(mol._atoms.items()):
         b = back._atoms[pos[n]]
         for what, x, y in (('element', a.atomic_number, b.atomic_number), ('isotope', a._isotope, b._isotope),
                            ('charge', a._charge, b._charge), ('radical', a._is_radical, b._is_radical),
@@ -365,6 +366,10 @@ def judge_A(mol, keep=True):
                            ('mapping', n if keep else 0, getattr(b, '_parsed_mapping', None) or 0),
                            ('coordinates', (a.x, a.y), (b.x, b.y))):
             if x != y:
+                if what == 'hydrogens' and y > x and rd.GetAtomWithIdx(i).GetNumImplicitHs() == y - x \
+                        and rd.GetAtomWithIdx(i).GetNumExplicitHs() == x:
+                    # the bridge wrote chython's count; RDKit's valence model then filled the atom up (known finding)
+                    what = 'hydrogens/rdkit-adds-implicit-H'
                 bad.append((what, f'atom {n}: {x!r} -> {y!r}'))
     e1 = {frozenset((pos[n], pos[m])): int(b) for n, m, b in mol.bonds()}
     e2 = {frozenset((n, m)): int(b) for n, m, b in back.bonds()}
@@ -383,7 +388,7 @@ def judge_A(mol, keep=True):
         return bad + [('normalise', type(e).__name__)]
     if s1 != s2:
         if bad:
-            bad.append(('canonical-string', f'{s1} -> {s2}'))
+            pass    # already explained by an attribute / bond / configuration difference above
         else:
             # every attribute, bond and configuration agrees under the position map: a string difference can then only be a
             # numbering dependence of the canonical writer (C01's recorded gap), not a bridge defect
@@ -516,6 +521,8 @@ OTHER = [
     'c1ccc2ccccc2c1', '[O-][n+]1ccccc1', '[cH-]1cccc1', 'C[Si](C)(C)C', 'B(O)(O)c1ccccc1', 'CS(=O)(=O)C', 'OP(=O)(O)O',
     '[Fe+2]', 'O=C=O', '[C-]#[O+]', 'C=C=C', 'CC=[C@]=CC', 'C/C=C=C=C/C', '[H][H]', '[H]C([H])([H])[H]', 'N#N', 'CN=[N+]=[N-]',
     'C[S+](C)C', '[O-]S(=O)(=O)[O-].[Mg+2]', 'F[B-](F)(F)F', 'C[Al](C)C', 'c1ccccc1~[Cr]', 'CO~[Ti](~OC)(Cl)Cl',
+    # lone neutral atoms: chython reads them as non-radical atoms without hydrogens
+    '[Zn]', '[Pd]', '[Fe]', '[Na]', '[Mg]', '[Al]', '[S]', '[Si]', '[H]', 'Cl[Sn]Cl', 'CC(=O)O[Na]', '[LiH]', '[AlH3]',
 ]
 
 
@@ -1165,6 +1172,9 @@ def probe(inp):
         x = judge_X(smi)
         if x:
             found += [('X', w, d) for w, d in x]
+    only = inp.get('only')
+    if only:
+        found = [f for f in found if f[1] == only]
     if found:
         return True, f'{len(found)} failures; first: {found[0]}'
-    return False, f'all round-trip judges hold for {smi}'
+    return False, f'all round-trip judges hold for {smi}' + (f' (looking for {only})' if only else '')
